@@ -134,6 +134,9 @@ var scriptWitnesses = []scriptWitness{
 	{"w-KF-rename-column", my, []Stmt{tbl("t", ints("a", "b")...), idx("t", "i", false, "a"), {Kind: "renameColumn", T: "t", A: "a", B: "z"}}},
 	{"w-KF-postgres-reader-vocabulary", pg, []Stmt{tbl("t", col("a", "INT8", oNotNull)), tbl("u", typed("INT8", "x")...), idx("t", "i", false, "a")}},
 	{"w-KF-sqlite-reader-vocabulary", lite, []Stmt{tbl("t", col("a", "INTEGER", oDef("1")))}},
+	// seeded change C05-d: an index names its table; it is not filed under the table created last
+	{"w-index-on-earlier-table-sqlite", lite, []Stmt{tbl("a", typed("INTEGER", "id", "name")...), tbl("b", typed("INTEGER", "id")...), idx("a", "idx_a_name", false, "name")}},
+	{"w-index-on-earlier-table-mysql", my, []Stmt{tbl("a", ints("id", "name")...), tbl("b", ints("id")...), idx("a", "idx_a_name", false, "name")}},
 	// every column dropped: the dump used to index t.Columns[0] (repaired)
 	{"w-all-columns-dropped", pg, []Stmt{tbl("t", typed("INT8", "a", "b")...), {Kind: "dropColumn", T: "t", A: "a"}, {Kind: "dropColumn", T: "t", A: "b"}}},
 	{"w-F13-rename-then-drop", my, []Stmt{tbl("t", ints("a", "b")...), {Kind: "renameColumn", T: "t", A: "a", B: "z"}, {Kind: "dropColumn", T: "t", A: "z"}}},
